@@ -212,7 +212,7 @@ func genC13Float(g *Gen, emit func(stream string, nt bool, w *W)) {
 			fn(s)
 		})
 	}
-	// --- exhaustive: every slice of length <= 2 over the 20 special values and of length 3 over the first 14
+	// --- exhaustive: every slice of length <= 2 over the 20 special values and of length 3 over the first 13
 	// (thorough: length 3 over all 20, length 4 over the first 15) for the six plain aggregates / extrema; every
 	// slice of length <= 2, and of length 3 over the first 7 (thorough 14), x 4 key functions for SumBy /
 	// FindMinBy / FindMaxBy
@@ -229,7 +229,7 @@ func genC13Float(g *Gen, emit func(stream string, nt bool, w *W)) {
 		}
 	}
 	slicesOfFloats(sp, 2, plain)
-	seqsExact(g.Pick(14, 20), 3, func(seq []int) {
+	seqsExact(g.Pick(13, 20), 3, func(seq []int) {
 		s := make([]float64, 3)
 		for i, v := range seq {
 			s[i] = sp[v]
@@ -254,8 +254,8 @@ func genC13Float(g *Gen, emit func(stream string, nt bool, w *W)) {
 		keyed(s)
 	})
 	// Abs, Compare/Less/Equal over all singles / pairs of the special values; Clamp/InRange over all triples of
-	// the first 13 (thorough: all 20)
-	nc := g.Pick(13, 20)
+	// the first 12 (thorough: all 20)
+	nc := g.Pick(12, 20)
 	for ia, a := range sp {
 		emit("float", true, (&W{}).Int(59).I64(c13FBits(a)))
 		emit("float", true, (&W{}).Int(59).I64(c13FBits(-a)))
@@ -351,7 +351,7 @@ func genC13Float(g *Gen, emit func(stream string, nt bool, w *W)) {
 			return ordinary()
 		}
 	}
-	nr := g.Pick(3000, 60000)
+	nr := g.Pick(2500, 60000)
 	for i := 0; i < nr; i++ {
 		gen := pick
 		if i%3 == 0 {
